@@ -227,6 +227,16 @@ def fault_case(case, part):
         if raised is None or raised["type"] != "DataFormatError":
             what = "no-error" if raised is None else raised["type"]
             part.fail(tag % ("%s-mode-ends-with-%s" % (mode, what)), case, "DataFormatError", {"events": len(events), "raised": raised})
+    if kind in ("open-quote", "cut-record"):
+        # the same damaged text handed over as an open stream instead of a path
+        for mode in MODES:
+            cid = readermachine.make_cid(dict(config, extra=extra), decls)
+            events, raised = api_rows(cid, harness.NamedStringIO(content.decode(fault.get("encoding", "utf-8")), "faulty" + suffix), mode)
+            part.transitions += 1
+            part.validated += 1
+            if raised is None or raised["type"] != "DataFormatError":
+                what = "no-error" if raised is None else raised["type"]
+                part.fail(tag % ("stream-source:%s-mode-ends-with-%s" % (mode, what)), case, "DataFormatError", {"events": len(events), "raised": raised})
 
 
 def xls_fault_case(case, part):
